@@ -34,7 +34,11 @@ func (v *Vue) evalVHtml(ctx VueContext, n *html.Node) error {
 	}
 
 	// Evaluate v-html expression to its string value and store in internal attribute
-	htmlStr := fmt.Sprint(val)
+	htmlStr := ""
+	if val != nil {
+		// (nothing is nothing: fmt would print "<nil>", which is an element for an HTML parser)
+		htmlStr = fmt.Sprint(val)
+	}
 	n.Attr = append(n.Attr, html.Attribute{Key: "data-v-html-content", Val: htmlStr})
 
 	// Clear children - v-html content will be output directly during rendering
